@@ -24,7 +24,7 @@ def c11_plan(tier):
                        G.consts(MaxVer=3, MaxSlots=1, Features={"leave", "expire"}, Budgets={99})],
             "sim": (G.consts(Node={"a", "b", "c"}, MaxVer=5, MaxSlots=3, Writers={"a", "c"}, Crashers={"c"},
                              Features=feats | {"compact", "dup"}, Budgets={2, 3, 99}), 240, 60),
-            "walks": (200, 90),
+            "walks": (1500, 90),
         }
     return rc, {
         "mc": G.consts(MaxVer=5, Features=feats | {"compact"}, Crashers={"a"}),
@@ -33,7 +33,7 @@ def c11_plan(tier):
         "covers": [G.consts(MaxVer=4, MaxSlots=1, Features=feats, Crashers={"a"})],
         "sim": (G.consts(Node={"a", "b", "c", "d"}, MaxVer=6, MaxSlots=4, Writers={"a", "c"}, Crashers={"c", "d"},
                          Features=feats | {"compact", "dup", "shuffle"}, Budgets={2, 3, 99}), 3000, 80),
-        "walks": (3000, 110),
+        "walks": (15000, 110),
     }
 
 
